@@ -106,9 +106,7 @@ macro_rules! range_guard {
                 assert!(out[i] == want[i]);
                 i += 1;
             }
-            if nfix.is_none() {
-                vcover!(k == 0);
-            }
+            vcover!(k == 0);
             vcover!(k >= 3);
             core::mem::forget(out);
         });
